@@ -21,6 +21,7 @@ ASSUMPTIONS = ["expressions are ints, slices of positive step, None bounds and a
                "a window with a negative start may be refused, be empty, or equal NumPy's a[p:p+e] (A1)",
                "values written are of the array's own dtype"]
 
+LAYER_B = ['C06']      # monitors of nixmon/passive/plugin.py run over the repository's own tests in the thorough tier
 NSHARDS = 16
 SHAPES = {
     2: [(2, 3), (3, 1), (0, 2), (3, 3), (1, 1), (4, 2)],
